@@ -37,6 +37,7 @@ RULE = ('G-frame DataFrames (1-3 columns, all recognised non-tz dtype kinds) '
 RULE += ' ' + "Also: a second verify_df call on the same constraints dictionary object under the other type-checking mode and epsilon; the constraints handed over as a path whose file held a decoy set of exactly the same size a moment ago; a real column's extreme value placed a quarter of the way inside / outside the band between an integer bound and its fuzzed value; empty rex lists; rex lists with groups, numbered and named back-references, alternation and inline flags, incl. lists in which only back-referencing expressions match some values."
 RULE += ' ' + 'Round 6: date bounds of date fields in the other spellings the loader reads (2020/01/05, 2020-1-5, T separator, one-digit hour); an object column holding only the numbers 0 and 1 (kind onum, tdda type string) under type constraints that allow bool.'
 RULE += ' ' + 'Round 7: even-length object bool columns hold numpy.bool_ scalars.'
+RULE += ' ' + 'Round 8: text-valued min / max bounds on object and string-dtype columns (closed, open and default precision; ordered as Python orders strings).'
 ASSUMPTIONS = ['kinds are applied only to field types for which the format '
                'document gives them a meaning (DESIGN C02 "Not generated")',
                'timezone-aware columns are not generated here (C01 records '
